@@ -88,8 +88,10 @@ def _bind_iter(target, it, env):
     _bind(target, _roots(it, env), env)
 
 
-def summary(m, methods, depth=0, _cache={}):
+def summary(m, methods, depth=0, _cache=None):
     """(set of roots written in place by the method, with 'param:<name>' for its parameters; list of (node, roots))"""
+    if _cache is None:
+        _cache = {}
     key = (id(m), depth)
     if key in _cache:
         return _cache[key]
@@ -133,7 +135,7 @@ def summary(m, methods, depth=0, _cache={}):
                             if w:
                                 sites.append((c, w))
                         if core.src(c.func.value) == "self" and c.func.attr in methods and methods[c.func.attr] is not m and depth < 2:
-                            sub_w, _ = summary(methods[c.func.attr], methods, depth + 1)
+                            sub_w, _ = summary(methods[c.func.attr], methods, depth + 1, _cache)
                             callee = methods[c.func.attr]
                             ps = [a.arg for a in callee.args.args if a.arg != "self"]
                             for w_ in sub_w:
@@ -157,10 +159,11 @@ def scan(tree):
     out = []
     for cls in [n for n in tree.body if isinstance(n, ast.ClassDef)]:
         methods = {n.name: n for n in cls.body if isinstance(n, ast.FunctionDef)}
+        cache = {}  # per class and scan: node identities are only stable while this tree is alive
         for name, m in methods.items():
             if not name.startswith(OBSERVER_PREFIXES) or any(core.src(d).endswith(".setter") for d in m.decorator_list):
                 continue
-            _, sites = summary(m, methods)
+            _, sites = summary(m, methods, 0, cache)
             out.append((cls.name, m, [(n, w) for n, w in sites if any(x.startswith("self.") or x.startswith("param:") for x in w)]))
     return out
 
